@@ -193,7 +193,12 @@ def lean_chk(t, sp):
     """Bool-valued checker  <key>_chk args (r : Res)."""
     conj = ["rr_.exc = false"]
     if sp["ret"] is not None:
-        conj.append("rr_.ret = %s" % sp["ret"])
+        if sp["cmp"] == "sign":
+            conj.append("Spec.sgn rr_.ret = %s" % sp["ret"])
+        elif sp["cmp"] == "truthy":
+            conj.append("Spec.b2i (rr_.ret ≠ 0) = %s" % sp["ret"])
+        else:
+            conj.append("rr_.ret = %s" % sp["ret"])
     outs = sp["outs"]
     if all(o is not None for o in outs):
         conj.append("rr_.outs = [%s]" % ", ".join(outs))
@@ -245,6 +250,8 @@ def generate(outdir_lean, gendir, log=lambda *a: None):
                  "set_option maxRecDepth 4000\nset_option maxErrors 100000\nset_option linter.unusedVariables false\nnamespace Givaro.Gen\nopen Givaro\n\n")
         for t in ts:
             sp = integer_spec.spec_for(t)
+            if sp is not None and sp["ret"] is None and t.ret[0] == "void" and sp["cmp"] == "exact":
+                sp["ret"] = "0"    # void functions / constructors: the model's returned value is the literal 0
             names = [p[0] for p in t.params]
             args = " ".join(names)
             binder = ("(%s : Int) " % args) if names else ""
@@ -264,13 +271,19 @@ def generate(outdir_lean, gendir, log=lambda *a: None):
                     fs.write("def %s_chk %s(rr_ : Res) : Bool := %s\n\n" % (t.key, binder, lean_chk(t, sp)))
                 hyps = range_hyps(t) + ["(hp%d : %s)" % (i, p) for i, p in enumerate(pre_l)]
                 tac = TACTIC.get(sp["fam"], "gmp_lin")
+                if tac == "gmp_div":
+                    nzs = [p[1] for p in sp["pre"] if p[0] == "nz"]
+                    dv = nzs[0] if nzs else names[-1]
+                    m_ = re.search(r"\(Spec\.\w+ (\w+) %s\)" % re.escape(dv), (sp["ret"] or "") + " " + " ".join(o or "" for o in sp["outs"]))
+                    tac = "gmp_div %s %s" % (m_.group(1) if m_ else names[0], dv)
                 if exact:
                     wid = "".join("  wrap_id %s\n" % n for n, c, ct in t.params if ct != "Integer")
                     ft.write("theorem %s_exact %s%s :\n    %s %s = %s_spec %s := by\n  unfold %s %s_spec\n%s  %s\n\n" %
                              (t.key, binder, " ".join(hyps), t.key, args, t.key, args, t.key, t.key, wid, tac))
                 else:
-                    ft.write("theorem %s_exact %s%s :\n    %s_chk %s (%s %s) = true := by\n  unfold %s %s_chk\n  %s\n\n" %
-                             (t.key, binder, " ".join(hyps), t.key, args, t.key, args, t.key, t.key, "gmp_cert"))
+                    wid = "".join("  wrap_id %s\n" % n for n, c, ct in t.params if ct != "Integer")
+                    ft.write("theorem %s_exact %s%s :\n    %s_chk %s (%s %s) = true := by\n  unfold %s\n%s  gmp_cert %s_chk\n\n" %
+                             (t.key, binder, " ".join(hyps), t.key, args, t.key, args, t.key, wid, t.key))
                 rec["spec"] = dict(fam=sp["fam"], prop=sp["prop"], pre=[list(p) for p in sp["pre"]], exact=exact, cmp=sp["cmp"])
             meta["functions"].append(rec)
         fs.write("end Givaro.Gen\n")
@@ -282,13 +295,15 @@ def generate(outdir_lean, gendir, log=lambda *a: None):
                  "import GivaroModel.Generated.IntegerOps\nimport GivaroModel.Generated.IntegerSpecs\n"
                  "namespace Givaro.Gen\nopen Givaro\n\n"
                  "/-- key ↦ (arity, fun args => (precondition holds, model result, checker applied to a given result)) -/\n"
-                 "def integerEntry (key : String) (a : Array Int) : Option (Bool × Res × (Res → Bool)) :=\n  match key with\n")
+                 "def integerEntry (key : String) (a : Array Int) : Option (Bool × Res × (Res → Bool) × String) :=\n  match key with\n")
         for t in ts:
             if t.key not in specs:
                 continue
             n = len(t.params)
             al = " ".join("a[%d]!" % i for i in range(n))
-            fd.write('  | "%s" => if a.size = %d then some (%s_pre %s, %s %s, %s_chk %s) else none\n' % (t.key, n, t.key, al, t.key, al, t.key, al))
+            mode = specs[t.key]["cmp"]
+            mode = {"bezout": "cert", "bezout2": "cert", "invmod": "cert"}.get(mode, mode)
+            fd.write('  | "%s" => if a.size = %d then some (%s_pre %s, %s %s, %s_chk %s, "%s") else none\n' % (t.key, n, t.key, al, t.key, al, t.key, al, mode))
         fd.write("  | _ => none\n\nend Givaro.Gen\n")
 
     # ---- harness stubs
